@@ -174,8 +174,9 @@ From Run Require Import C14_pure.
 Import ListNotations.
 Local Open Scope Z_scope.
 Definition cfg_of (fixed : bool) (kind : Z) : dcfg := if (kind =? 0) || (kind =? 3) then cfg65 fixed else cfgalt fixed.
-Definition O (pbr pc : Z) (bs : list Z) (nm : string) (shape : Z) (gs : list (list Z)) (back hasregs aw : Z) (av : Z) (xw xv yw yv : Z) (fl : list Z) : option obs :=
-  Some (mkobs pbr pc bs nm shape gs (negb (back =? 0)) (negb (hasregs =? 0)) (negb (aw =? 0), av) (negb (xw =? 0), xv) (negb (yw =? 0), yv) (map (fun z => negb (z =? 0)) fl)).
+Definition O (pbr pc : Z) (bs : list Z) (nm : string) (shape : Z) (gs : list (list Z)) (back hasregs aw : Z) (av : Z) (xw xv yw yv : Z) (fl : list Z) (pure : Z) : option obs :=
+  Some (mkobs pbr pc bs nm shape gs (negb (back =? 0)) (negb (hasregs =? 0)) (negb (aw =? 0), av) (negb (xw =? 0), xv) (negb (yw =? 0), yv) (map (fun z => negb (z =? 0)) fl)
+              (negb (pure =? 0))).
 Definition R (rk pc m x ra ral rx rxl ry ryl n v d i z c : Z) : list (N * Z) :=
   [(f_RK, rk); (f_PC, pc); (f_M, m); (f_X, x); (f_RA, ra); (f_RAl, ral); (f_RX, rx); (f_RXl, rxl); (f_RY, ry); (f_RYl, ryl);
    (f_N, n); (f_V, v); (f_D, d); (f_I, i); (f_Z, z); (f_C, c)].
@@ -212,15 +213,15 @@ def case_to_coq(line):
         otxt = "None"
     elif obs.startswith("UNPARSED"):
         # a line the parser does not understand can agree with no model line: shape -1
-        otxt = "(O 0 0 [] \"\"%string (-1) [] 0 0 0 0 0 0 0 0 [])"
+        otxt = "(O 0 0 [] \"\"%string (-1) [] 0 0 0 0 0 0 0 0 [] 1)"
     else:
         f = obs.split()
-        pbr, pc, bs, nm, shape, gs, back, hasregs, aw, av, xw, xv, yw, yv, fl = f
+        pbr, pc, bs, nm, shape, gs, back, hasregs, aw, av, xw, xv, yw, yv, fl, pure = f
         bl = "[]" if bs == "-" else "[" + "; ".join(bs.split(",")) + "]"
         gl = "[]" if gs == "-" else "[" + "; ".join("[" + "; ".join(g.split(".")) + "]" for g in gs.split(";")) + "]"
         nm = "" if nm == "-" else nm
-        otxt = "(O %s %s %s %s %s %s %s %s %s %s %s %s %s %s [%s])" % (pbr, pc, bl, coq_string(nm), shape, gl, back, hasregs, aw, av, xw, xv, yw, yv,
-                                                                    "; ".join(fl))
+        otxt = "(O %s %s %s %s %s %s %s %s %s %s %s %s %s %s [%s] %s)" % (pbr, pc, bl, coq_string(nm), shape, gl, back, hasregs, aw, av, xw, xv, yw, yv,
+                                                                       "; ".join(fl), pure)
     return cid * 4 + kind, "(%d, mkcase %d %d (%s) %s %s)" % (kind, cid, mypc, rtxt, mtxt, otxt)
 
 
